@@ -168,14 +168,11 @@ Monitor ==
     /\ (RecordedDiagsInside \/ Fail("RecordedDiagsInside"))
     /\ (RecordedPositionsAgree \/ Fail("RecordedPositionsAgree"))
 
-RECURSIVE SetToSeq(_)
-SetToSeq(S) == IF S = {} THEN <<>> ELSE LET x == CHOOSE x \in S : TRUE IN <<x>> \o SetToSeq(S \ {x})
-
 Post ==
   /\ PrintT(<<"RESULT", ToJson([seen |-> Cardinality(TLCGet(SEEN)),
                                 accepted |-> Cardinality(TLCGet(ACC)),
-                                rejected |-> SetToSeq(TLCGet(SEEN) \ TLCGet(ACC)),
-                                invfail |-> SetToSeq(TLCGet(INV)),
+                                rejected |-> TLCGet(SEEN) \ TLCGet(ACC),
+                                invfail |-> TLCGet(INV),
                                 steps |-> TLCGet(NSTEP),
                                 events |-> N])>>)
 =============================================================================
